@@ -40,9 +40,17 @@ MicroPerDay == Mul(SecPerDay, Mega)
 BFloorDivMod(x, y) == \* y > 0; returns <<q, r>> with x = q*y + r, 0 <= r < y
   IF ~x.neg THEN <<TDiv(x, y), TRem(x, y)>>
   ELSE LET q == Neg(TDiv(Sub(Add(Neg(x), y), One), y)) IN <<q, Sub(x, Mul(q, y))>>
-Split(us) == LET dr == BFloorDivMod(us, MicroPerDay)
-                 sr == BFloorDivMod(dr[2], Mega)
-             IN [days |-> ToInt(dr[1]), secs |-> ToInt(sr[1]), micros |-> ToInt(sr[2])]
+\* (linear-time small divisions: 10^6 = 1000 * 1000, 86400 = 128 * 675; the general BFloorDivMod above is kept as the reference and
+\*  the two are compared by the invariant SplitAgrees of MC_C11)
+Split(us) == LET a == FloorDivModSmall(us, 1000)
+                 b == FloorDivModSmall(a[1], 1000)
+                 c == FloorDivModSmall(b[1], 128)
+                 d == FloorDivModSmall(c[1], 675)
+             IN [days |-> ToInt(d[1]), secs |-> d[2] * 128 + c[2], micros |-> b[2] * 1000 + a[2]]
+SplitRef(us) == LET dr == BFloorDivMod(us, MicroPerDay)
+                    sr == BFloorDivMod(dr[2], Mega)
+                IN [days |-> ToInt(dr[1]), secs |-> ToInt(sr[1]), micros |-> ToInt(sr[2])]
+EpochSeconds(us) == FloorDivModSmall(FloorDivModSmall(us, 1000)[1], 1000)[1]
 Join(days, secs, micros) == Add(Mul(Add(Mul(FromInt(days), SecPerDay), FromInt(secs)), Mega), FromInt(micros))
 Minutes(n) == Mul(FromInt(n * 60), Mega)
 \* civil fields of instant us seen with a UTC offset of off minutes
@@ -73,7 +81,10 @@ NoOffset == 100000
 ZoneOffset(z, us) ==
   IF Len(z) = 6 /\ z[1] \in {43, 45} /\ AllDigits(SubSeq(z, 2, 3)) /\ z[4] = 58 /\ AllDigits(SubSeq(z, 5, 6))
   THEN (IF z[1] = 45 THEN -1 ELSE 1) * (Num(SubSeq(z, 2, 3)) * 60 + Num(SubSeq(z, 5, 6)))
-  ELSE CASE z = Z_UTC -> 0 [] z = Z_Kolkata -> 330 [] z = Z_Tokyo -> 540 [] z = Z_Kathmandu -> 345 [] z = Z_Phoenix -> -420
+  ELSE CASE z = Z_UTC -> 0
+         [] z \in {Z_Kolkata, Z_Tokyo, Z_Kathmandu, Z_Phoenix} ->      \* constant offsets -- in the tz database since 1986 at the latest
+              (LET y == Fields(us, 0).y IN IF y < 1990 \/ y > 2037 THEN NoOffset
+               ELSE CASE z = Z_Kolkata -> 330 [] z = Z_Tokyo -> 540 [] z = Z_Kathmandu -> 345 [] z = Z_Phoenix -> -420)
          [] z \in {Z_NewYork, Z_Paris, Z_Sydney} ->
               (LET f == Fields(us, 0) IN
                IF f.y < 1990 \/ f.y > 2037 \/ f.m \notin {1, 7} \/ f.d < 3 \/ f.d > 26 THEN NoOffset
